@@ -241,6 +241,16 @@ def dep_slice(fn: ast.AST, start: ast.AST | str, stop: Iterable[str] = ()) -> Sl
                     for n in ast.walk(it.optional_vars):
                         if isinstance(n, ast.Name):
                             assigned.setdefault(n.id, []).append((it.context_expr, st))
+        # in-place fills: what is stored into / appended to a local container flows into it
+        if isinstance(st, ast.Assign):
+            for t in st.targets:
+                if isinstance(t, ast.Subscript) and isinstance(t.value, ast.Name):
+                    assigned.setdefault(t.value.id, []).append((st.value, st))
+                    assigned.setdefault(t.value.id, []).append((t.slice, st))
+        elif isinstance(st, ast.Expr) and isinstance(st.value, ast.Call) and isinstance(st.value.func, ast.Attribute) and isinstance(st.value.func.value, ast.Name) \
+                and st.value.func.attr in ("append", "extend", "add", "update", "insert", "setdefault", "appendleft"):
+            for a_ in list(st.value.args) + [k_.value for k_ in st.value.keywords]:
+                assigned.setdefault(st.value.func.value.id, []).append((a_, st))
     out = Slice()
     work: list[str] = []
 
